@@ -52,8 +52,18 @@ class CaseTimeout(BaseException):
 _fired = [False]
 
 
+_stack = [None]
+
+
 def _alarm(signum, frame):
     _fired[0] = True
+    # where was pdpy11 when the watchdog fired? (file, function) pairs, innermost last
+    st = []
+    f = frame
+    while f is not None:
+        st.append((os.path.basename(f.f_code.co_filename), f.f_code.co_name))
+        f = f.f_back
+    _stack[0] = st[::-1]
     raise CaseTimeout()
 
 
@@ -180,7 +190,7 @@ def assemble(files, charset="bk", timeout=DEFAULT_TIMEOUT, want_symbols=False, r
     if _fired[0] and out.kind != "ok":
         # the watchdog interrupted pdpy11 asynchronously; whatever exception surfaced is an artefact of that
         out.kind = "timeout"
-        out.exc = ("CaseTimeout", "watchdog", "")
+        out.exc = ("CaseTimeout", "watchdog", _stack[0])
     if out.kind == "ok" and any(r[0] != "warning" for r in recs):
         out.kind = "ok-with-errors"  # success although an error was reported: never legitimate
     if comp is not None:
